@@ -330,65 +330,66 @@ Fixpoint deploy_all (opi : nat) (pod : name) (r : res) (plan : list (name * nat)
     Ret ((match fst a with [] => fst b | _ => (n, fst a) :: fst b end), snd a ++ snd b)
   end.
 
+(* the body of the condition step, run under the pod lock *)
+Definition cond_body (opi : nat) (r : res) (plan : option (list (name * nat))) (s : cstate_create) (ns : list node) : cprog (cstate_create * oerr) :=
+  match ns with
+  | [] => Ret (s, Some ENatural)
+  | _ =>
+    t <- call1 (WLog (EvAlloc (map n_name ns))) ;;
+    match t with
+    | RToken tok =>
+      let s1 := mkCS (Some tok) [] [] [] in
+      e <- doc (PGetCapacity (map n_name ns)) ;;
+      match e with
+      | Some e => Ret (s1, Some e)
+      | None =>
+        e2 <- doc SGetDeployStatus ;;
+        match e2 with
+        | Some e => Ret (s1, Some e)
+        | None =>
+          match plan with
+          | None => Ret (s1, Some ENatural)
+          | Some dm => alloc_loop opi r dm (mkCS (Some tok) dm [] [])
+          end
+        end
+      end
+    | RErr e => Ret (s, Some e)
+    | _ => Ret (s, Some ENatural)
+    end
+  end.
+
+(* give back the resources of the listed instances, node by node, each under the pod lock *)
+Definition rollback_prog (r : res) (rb : list (name * list nat)) : cprog unit :=
+  for_all rb (fun g => ign (with_node_pod_locked (fst g) (fun _ => doc (PRollbackAlloc (fst g) (repeat r (length (snd g))))))).
+
 (* doCreateWorkloads.  [plan]: what the strategy returned (None = refused), nodes in
    the order the condition step visited them. Returns the messages it sent. *)
 Definition create (opi : nat) (pod : name) (r : res) (plan : option (list (name * nat))) : cprog (list msg) :=
   res <- txn_s (mkCS None [] [] [], @nil (name * list nat), @nil msg)
     (* if: alloc resources *)
     (fun st =>
-      let '(s, rb, ms) := st in
-      x <- with_nodes_pod_locked (FPod pod false) (fun e => (s, Some e))
-        (fun ns =>
-           match ns with
-           | [] => Ret (s, Some ENatural)
-           | _ =>
-             t <- call1 (WLog (EvAlloc (map n_name ns))) ;;
-             match t with
-             | RToken tok =>
-               let s1 := mkCS (Some tok) [] [] [] in
-               e <- doc (PGetCapacity (map n_name ns)) ;;
-               match e with
-               | Some e => Ret (s1, Some e)
-               | None =>
-                 e2 <- doc SGetDeployStatus ;;
-                 match e2 with
-                 | Some e => Ret (s1, Some e)
-                 | None =>
-                   match plan with
-                   | None => Ret (s1, Some ENatural)
-                   | Some dm => alloc_loop opi r dm (mkCS (Some tok) dm [] [])
-                   end
-                 end
-               end
-             | RErr e => Ret (s, Some e)
-             | _ => Ret (s, Some ENatural)
-             end
-           end) ;;
+      x <- with_nodes_pod_locked (FPod pod false) (fun e => (fst (fst st), Some e)) (cond_body opi r plan (fst (fst st))) ;;
       match snd x with
-      | Some e => send MCreateErr ;;; Ret ((fst x, rb, [MCreateErr]), Some e)
-      | None => Ret ((fst x, rb, ms), None)
+      | Some e => send MCreateErr ;;; Ret ((fst x, snd (fst st), [MCreateErr]), Some e)
+      | None => Ret ((fst x, snd (fst st), snd st), None)
       end)
     (* then: deploy workloads *)
     (Some (fun st =>
-      let '(s, _, ms) := st in
-      d <- deploy_all opi pod r (cs_plan s) ;;
-      Ret ((s, fst d, ms ++ snd d), match fst d with [] => None | _ => Some ENatural end)))
+      d <- deploy_all opi pod r (cs_plan (fst (fst st))) ;;
+      Ret ((fst (fst st), fst d, snd st ++ snd d), match fst d with [] => None | _ => Some ENatural end)))
     (* rollback: give back resources *)
     (Some (fun st (by_cond : bool) =>
-      let '(s, rb0, _) := st in
       (* a late failure of the condition step: give back everything allocated so far *)
-      let rb := if by_cond then map (fun a => (fst a, seq_nat 0 (snd a))) (cs_alloc s) else rb0 in
-        for_all rb (fun g =>
-          ign (with_node_pod_locked (fst g) (fun _ => doc (PRollbackAlloc (fst g) (repeat r (length (snd g))))))) ;;;
-        rok)) ;;
-  let '(s, _, ms) := fst res in
+      let rb := if by_cond then map (fun a => (fst a, seq_nat 0 (snd a))) (cs_alloc (fst (fst st))) else snd (fst st) in
+      rollback_prog r rb ;;; rok)) ;;
+  let s := fst (fst (fst res)) in
   (* deferred, LIFO: delete the processing markers, commit their WAL entries, commit the
      allocation entry, close the channel *)
   for_all (cs_plan s) (fun g => ign (doc (SDeleteProcessing (fst g) opi))) ;;;
   commit_processing opi (cs_ptokens s) ;;;
   (match cs_rtoken s with Some t => ign (doc (WCommit t (EvAlloc []))) | None => skip end) ;;;
   send MClose ;;;
-  Ret ms.
+  Ret (snd (fst res)).
 
 (* ---------------------------------------------------------------- lambda.go *)
 
